@@ -105,6 +105,13 @@ def build_logic(am: AM, rec: Rec, engine="sync", sched=None):
                 rec.log.append(("act", k, ev.type, tag_of(ev)))
                 raise RuntimeError("fail %d" % k)
             actions["f%d" % k] = f
+        elif a[0] == "del":
+            k, v = a[1], a[2]
+
+            def dl(i, ctx, ev, ad, k=k, v=v):
+                rec.log.append(("act", k, ev.type, tag_of(ev)))
+                ctx.pop("v%d" % v, None)
+            actions["d%d_%d" % (k, v)] = dl
         elif a[0] == "slow":
             k, d = a[1], a[2]
             if engine == "async":
@@ -794,11 +801,9 @@ def run_restored(am: AM, engine, events, k, seed_ctx=None):
     cls = SyncInterpreter if engine == "sync" else Interpreter
 
     async def amain():
-        mA = create_machine(am.to_config(), logic=build_logic(am, recA, engine))
+        mA = create_machine(am.to_config(context=seed_ctx), logic=build_logic(am, recA, engine))
         index_transitions(am, mA, recA)
         A = cls(mA)
-        if seed_ctx:
-            A.context.update(seed_ctx)
         instrument(A, recA, engine)
 
         async def call(x):
@@ -838,7 +843,7 @@ def run_restored(am: AM, engine, events, k, seed_ctx=None):
         kept = copy.deepcopy(persisted)
         out["restored"].append(flat_snapshot_dict(am, d))
         # restore into a fresh interpreter over a freshly built machine
-        mB = create_machine(am.to_config(), logic=build_logic(am, recB, engine))
+        mB = create_machine(am.to_config(context=seed_ctx), logic=build_logic(am, recB, engine))
         index_transitions(am, mB, recB)
         detach_log_handler(hA)
         hB = attach_log_handler(recB)
